@@ -22,10 +22,12 @@ package c11
 import (
 	"context"
 	"fmt"
+	"os"
 	"sort"
 	"strings"
 	"sync"
 	"sync/atomic"
+	"time"
 
 	"github.com/risor-io/risor"
 	"github.com/risor-io/risor/object"
@@ -210,6 +212,10 @@ func loadUniverse(r *ev.Run) *universe {
 	}
 	sort.Strings(u.alphabet)
 	u.base = buildGraph(globals, u.alphabet)
+	if u.base.capped {
+		r.EngineError("baseline closure exceeds 200000 objects")
+		return nil
+	}
 	u.baseSig = u.base.signature()
 	for _, n := range u.names {
 		nd, ok := u.base.resolve(n.Name)
@@ -412,7 +418,9 @@ func (u *universe) baselineAttempts(r *ev.Run) {
 type reporter func(sig, what string, in caseIn, observed, expected string)
 
 func direct(r *ev.Run) reporter {
-	return func(sig, what string, in caseIn, observed, expected string) { r.Report(sig, what, in, observed, expected) }
+	return func(sig, what string, in caseIn, observed, expected string) {
+		r.Report(sig, what, in, observed, expected)
+	}
 }
 
 type pendingReport struct {
@@ -468,6 +476,9 @@ func (u *universe) checkClosure(r *ev.Run, report reporter, c cfgSpec, verbose b
 		return 0, 0
 	}
 	g := buildGraph(globals, u.alphabet)
+	if g.capped {
+		r.Cap("closure of " + c.String() + " exceeds 200000 objects; expansion stopped")
+	}
 	for _, p := range g.panics {
 		report("c11-panic", c.String()+": GetAttr panicked at "+p, in, "panic", "attribute or not found")
 	}
@@ -632,6 +643,9 @@ func (u *universe) runSequence(r *ev.Run, seq []cfgSpec, verbose bool) (states, 
 			continue
 		}
 		g := buildGraph(built[i], u.alphabet)
+		if g.capped {
+			r.Cap("closure of a default configuration exceeds 200000 objects; expansion stopped")
+		}
 		states += len(g.nodes)
 		trans += g.trans
 		d := diffSig(u.baseSig, g.signature())
@@ -677,6 +691,7 @@ func (u *universe) runSequenceScript(r *ev.Run, c cfgSpec, a attempt, verbose bo
 // ---------------------------------------------------------------- the check
 
 func Check(r *ev.Run, replay string) {
+	t0 := time.Now()
 	u := loadUniverse(r)
 	if u == nil {
 		return
@@ -761,6 +776,9 @@ func Check(r *ev.Run, replay string) {
 		}
 	}
 
+	if os.Getenv("VERIF_C11_TIMING") != "" {
+		fmt.Fprintf(os.Stderr, "c11: baseline done at %.1fs\n", time.Since(t0).Seconds())
+	}
 	// independence, sequentially (configurations that share state must not be exercised in parallel)
 	seqs := 0
 	before := r.NumViolations()
@@ -784,6 +802,9 @@ func Check(r *ev.Run, replay string) {
 		}
 	}
 	r.Set("sequences", seqs)
+	if os.Getenv("VERIF_C11_TIMING") != "" {
+		fmt.Fprintf(os.Stderr, "c11: independence phase done at %.1fs\n", time.Since(t0).Seconds())
+	}
 	if r.NumViolations() > before {
 		// shared state between configurations: exercising them in parallel would race inside risor
 		r.Set("parallel_phases_skipped", "configurations interfere; per-configuration phases not run")
